@@ -256,6 +256,9 @@ def program_list(tier):
                     add(programs.Program([programs.Eq(programs.Term('Y'), ctx, [term])], 'S1'))
                 if kind == 'v':
                     add(programs.Program([programs.Eq(programs.Term(nm, 'v', off, form), '2 * PH0', [programs.Term('W', 'v', -1)])], 'S1-lhs'))
+    for lab in ("'b'", '"b"', '`1`'):
+        for nm, kind in (('X', 'v'), ('a', 'p'), ('e', 'e')):
+            add(programs.Program([programs.Eq(programs.Term('Y'), '2 * PH0 - PH1', [programs.Term(nm, kind, ('label', lab)), programs.Term('Z', 'v', -1)])], 'label'))
     extra = [
         ('Y', 'PH0 * PH1 + PH2 * PH3', [('a', 'p', 0), ('YD', 'v', 0), ('b', 'p', 0), ('H', 'v', -1)]),
         ('Y', 'exp(PH0) + log(PH1) - max(PH2, 0, PH3)', [('X', 'v', -1), ('Z', 'v', 0), ('e', 'e', 0), ('W', 'v', 2)]),
@@ -389,6 +392,8 @@ def run_program(case, p=None):
     for s in base:
         if s.equation is None or '`' in s.equation or s.type.name != 'ENDOGENOUS':
             continue
+        if re.search(r"self\['\w+', [^'\"]", s.code or ''):
+            continue  # a backticked period index (X[`1`]) loses its backticks in the normal form: excluded by the statement
         text = re.sub(r'\[t([+-]\d+)?\]', lambda m: '[%s]' % (m.group(1) if m.group(1) else '0'), s.equation)
         again, err2 = parse(text)
         if again is None:
